@@ -1115,6 +1115,20 @@ pub fn gen_clifprobe(w: &mut impl Write, thorough: bool, seed: u64) {
             writeln!(w, "exec tag=memprobe prog={} mem={} mbuff={} patch={} budget=300 engines=clif force=clif kind=mbuff", hex(&p), hex(&mem), hex(&mb), patch).unwrap();
         } } }
     } } }
+    // register stores whose VALUE register is the frame pointer r10 (or any other register), through a base at the start of the packet / metadata
+    // buffer / stack with offsets in the range a stack slot would have ([-512, 0)): below the region they must trap whatever register is stored
+    for (rname, _len) in [("mem", 8i64), ("mbuff", 16), ("stack", 512)] { for &(_ldx, _st, stx, wd) in &w8 { for vreg in [10u8, 2, 9] {
+        for off in [-(wd as i16), -8, -1, -256, -512, 0, 8 - wd as i16] {
+            let mut p = vec![]; init_regs(&mut p);
+            let patch;
+            if rname == "stack" { p.extend(ins(0xbf, 6, 10, 0, 0)); p.extend(ins(0x07, 6, 0, 0, -512)); patch = "-".to_string(); }
+            else { p.extend(lddw(6, 0)); patch = format!("{}:{}:0", p.len() / 8 - 2, rname); }
+            p.extend(ins(stx, 6, vreg, off, 0));
+            if wd >= 4 && vreg != 10 { p.extend(ins(if wd == 4 { 0xc3 } else { 0xdb }, 6, vreg, off, 0)); }
+            p.extend(ins(0xb7, 6, 0, 0, 0)); fold_exit(&mut p);
+            writeln!(w, "exec tag=memprobe prog={} mem={} mbuff={} patch={} budget=300 engines=clif force=clif kind=mbuff", hex(&p), hex(&mem), hex(&mb), patch).unwrap();
+        }
+    } } }
 }
 
 /// C12 (model validation): arbitrary whole-slot byte strings of the verify suite, loaded through an accept-all verifier and only compiled:
@@ -1142,5 +1156,13 @@ pub fn gen_pageboundary(w: &mut impl Write, thorough: bool, _seed: u64) {
             for _ in 0..n { p.extend(EXIT); }
             writeln!(w, "exec tag=pageboundary prog={} budget=10 engines=jit kind={} norun=1", hex(&p), kind).unwrap();
         }
+    }
+    // thorough only (the model takes minutes on it): a program dense in expensive instructions whose machine code exceeds 16 MiB — 430,000 64-bit
+    // divisions by a register, about 41 bytes each: the buffer must be the size the first pass counted, whatever that is
+    if thorough {
+        let mut p = vec![]; p.extend(ins(0xb7, 6, 0, 0, 1000)); p.extend(ins(0xb7, 7, 0, 0, 1));
+        for _ in 0..430_000 { p.extend(ins(0x3f, 6, 7, 0, 0)); }
+        p.extend(ins(0xbf, 0, 6, 0, 0)); p.extend(EXIT);
+        writeln!(w, "exec tag=pageboundary prog={} budget=600000 engines=jit kind=nodata norun=1", hex(&p)).unwrap();
     }
 }
